@@ -26,7 +26,9 @@ def form_check(cfg, sd, inp_name):
     """requested-form clauses of C02 on a strictly-read output; returns list of problems"""
     probs = []
     comp = [og for og, w in sd.where.items() if w[0] == "c"]
-    objstm = [og for og, v in sd.objs.items() if isinstance(v, Stream) and v.d.get(b"Type") == Name(b"ObjStm")]
+    # object streams OF THE OUTPUT are the streams that compressed entries point into (a stream that merely carries /Type /ObjStm,
+    # copied from a damaged input as ordinary data, is not one)
+    objstm = sorted(set((w[1], 0) for w in sd.where.values() if w[0] == "c"))
     forced = [c.split("=")[1] for c in cfg if c.startswith("--force-version=")]
     ver = tuple(int(x) for x in sd.version.split("."))
     if "--object-streams=disable" in cfg or (forced and tuple(int(x) for x in forced[0].split(".")) < (1, 5)):
